@@ -11,6 +11,7 @@ type Profile struct {
 	Name     string
 	Property string
 	Checks   bool
+	Reverse  bool // also run the order-independence (purity) pass
 	Gen      func(g *Gen, p *Program)
 }
 
@@ -19,7 +20,7 @@ var Profiles = map[string]*Profile{}
 
 func init() {
 	for _, p := range []*Profile{
-		{Name: "P20", Property: "C20", Checks: false, Gen: genP20},
+		{Name: "P20", Property: "C20", Checks: false, Reverse: true, Gen: genP20},
 		{Name: "P05", Property: "C05", Checks: true, Gen: genP05},
 		{Name: "P06", Property: "C06", Checks: true, Gen: genP06},
 		{Name: "P07", Property: "C07", Checks: true, Gen: genP07},
